@@ -1292,3 +1292,34 @@ def judge_multi(mc, results):
                     f"(alone the same source and observer are {'fine' if not f1 else 'failing differently: ' + str(sig1)}): " + what,
                     {"kind": "field-multi", "multi": m2}))
     return out
+
+
+# =========================================================================== CylinderSegment azimuth grid
+# Section angles given in whole degrees and an observer whose azimuth is EXACTLY a side-face angle plus 0, +-180 or
+# +-360 degrees (computed in degrees and then converted, as a user would), off the surface: the dispatcher
+# determine_cases and the periodic continuation of the incomplete elliptic integrals decide these inputs by comparing
+# phi - phi_j with multiples of pi up to rounding, one ulp on either side.
+def azimuth_case(rng, phij, k, which):
+    """unposed CylinderSegment with side face `which` (0: phi1, 1: phi2) at the integer angle phij; observer azimuth phij + k"""
+    for _ in range(40):
+        span = rng.randint(5, 355)
+        a1, a2 = (phij, phij + span) if which == 0 else (phij - span, phij)
+        if a1 < -360 or a2 > 360:
+            continue
+        r2 = rng.choice([1.0, 2.0, _logu(rng, 0.05, 20.0)])
+        r1 = rng.choice([0.0, 0.5 * r2, r2 * rng.uniform(0.1, 0.9)])
+        h = rng.choice([1.0, r2 * _logu(rng, 0.3, 3.0)])
+        case = {"cls": "CylinderSegment", "pos": [0.0, 0.0, 0.0], "rotvec": [0.0, 0.0, 0.0], "kind": "azimuth-grid",
+                "params": {"polarization": _pol(rng), "dimension": [r1, r2, h, float(a1), float(a2)]}}
+        if not any(case["params"]["polarization"]):
+            case["params"]["polarization"] = [0.3, -0.2, 0.5]
+        az = np.deg2rad(float(phij + k))
+        kr = rng.random()
+        r = r2 * rng.uniform(1.05, 3.0) if kr < 0.5 or r1 == 0 else r1 * rng.uniform(0.2, 0.9) if kr < 0.75 else rng.uniform(r1, r2)
+        z = rng.uniform(-0.45, 0.45) * h if not (r1 <= r <= r2) else rng.choice([-1, 1]) * h * rng.uniform(0.6, 2.0)
+        o = np.array([r * np.cos(az), r * np.sin(az), z])
+        _, dist = inside_and_dist(case, o)
+        if dist >= 2e-3 * size_of(case):
+            case["obs_local"] = o.tolist()
+            return case
+    return None
